@@ -191,16 +191,19 @@ CtlFails(outcome) == outcome = "err"
 CtlResult(kind, id, outcome) ==
   IF CtlFails(outcome) THEN ErrRec("stop_error", 131)
   ELSE CASE kind = "pubrel" -> Resp("PUBCOMP", id, 0)
+         [] kind = "auth" -> Resp("AUTH", 0, 0)
+         [] kind = "disc" -> None
          [] kind = "sub" -> Resp("SUBACK", id, 1)
          [] kind = "unsub" -> Resp("UNSUBACK", id, 0)
          [] OTHER -> Resp("PINGRESP", 0, 0)
 
-CtlDone(st, kind, id, outcome) ==
+CtlDone(st0, kind, id, outcome) ==
+  LET st == IF kind = "disc" /\ Ver = 3 /\ ~CtlFails(outcome) THEN CloseSink(st0) ELSE st0 IN
   [st EXCEPT !.ids = IF ~CtlFails(outcome) /\ kind \in {"sub", "unsub", "pubrel"} THEN @ \ {id} ELSE @,
              !.pubIds = IF ~CtlFails(outcome) /\ kind = "pubrel" THEN @ \ {id} ELSE @,
              !.ctlRun = 0, !.held = FALSE]
 
-HStartId(kind, id) == IF Ver = 5 /\ kind # "ping" THEN id ELSE 0
+HStartId(kind, id) == IF Ver = 5 /\ kind \notin {"ping", "disc", "auth"} THEN id ELSE 0
 
 \* a publish handler starts for request n (the in-flight id was recorded by the caller)
 StartPub(st, n, q, id, topic, plen) ==
@@ -273,7 +276,8 @@ Dispatch(st0, p) ==
               ELSE LET r == Resolve(s1, p) IN
                    IF r[1] THEN StartPub(r[2], n, q, id, r[3], p.plen) ELSE Viol(s1, r[4])
     [] p.kind = "pubrel" ->
-         IF p.id \in st.q2rec THEN CtlArrive(st, n, "pubrel", p.id)
+         \* (the v3 client accepts PUBREL for any identifier that is in flight, not only for an acknowledged QoS 2 publish)
+         IF p.id \in st.q2rec \/ (Ver = 3 /\ Role = "client" /\ p.id \in st.ids) THEN CtlArrive(st, n, "pubrel", p.id)
          ELSE IF Ver = 3 THEN Viol(st, 130)
          ELSE InCall(st, n, Resp("PUBCOMP", p.id, 146))
     [] p.kind \in {"sub", "unsub"} ->
@@ -282,7 +286,23 @@ Dispatch(st0, p) ==
            THEN IF Ver = 3 THEN Viol(st, 130)
                 ELSE InCall(Write(st, Resp(IF p.kind = "sub" THEN "SUBACK" ELSE "UNSUBACK", p.id, 145)), n, None)
            ELSE CtlArrive(st, n, p.kind, p.id)
-    [] OTHER -> IF Role = "client" THEN Viol(st, 130) ELSE CtlArrive(st, n, "ping", 0)
+    [] p.kind = "ping" -> IF Role = "client" THEN Viol(st, 130) ELSE CtlArrive(st, n, "ping", 0)
+    \* CONNECT / CONNACK after the handshake and PINGRESP are ignored
+    [] p.kind \in {"connect", "connack", "pingresp"} -> InCall(st, n, None)
+    \* an acknowledgement although nothing is outstanding (the sink side is idle in this model): pkt_ack fails,
+    \* the sink is closed (MQTT 5: DISCONNECT 0x83 first), the violation is reported
+    [] p.kind \in {"puback", "pubrec", "pubcomp"} \/ (p.kind \in {"suback", "unsuback"} /\ Role = "client") ->
+         Viol(CloseSink(IF Ver = 5 THEN Write(st, Resp("DISCONNECT", 0, 131)) ELSE st), 131)
+    [] p.kind \in {"suback", "unsuback"} -> Viol(st, 130)
+    [] p.kind = "auth" -> IF Role = "client" THEN Viol(st, 130) ELSE CtlArrive(st, n, "auth", 0)
+    \* DISCONNECT with a Session Expiry Interval the peer may not send
+    [] p.kind = "discsei" -> Viol(st, 130)
+    \* the peer's DISCONNECT: MQTT 5 marks it and closes the io at once, then asks the application; the MQTT 3.1.1
+    \* server asks the application and closes afterwards; the MQTT 3.1.1 client does not expect it
+    [] p.kind = "disc" ->
+         IF Ver = 3 /\ Role = "client" THEN Viol(st, 130)
+         ELSE CtlArrive(IF Ver = 5 THEN [st EXCEPT !.closed = TRUE] ELSE st, n, "disc", 0)
+    [] OTHER -> Viol(st, 130)
 
 \* poll_recv_decode: undecodable bytes end the connection with a protocol error (only when the dispatcher
 \* reads, i.e. when the service is ready), a packet is dispatched
@@ -309,6 +329,7 @@ LimReady(st) ==
 RECURSIVE Quiesce(_)
 Quiesce(st) ==
   IF ~st.alive THEN st
+  ELSE IF st.closed THEN Stop(st, "stop_peer", -1)        \* the io was closed by the endpoint itself: PeerGone(None)
   ELSE IF st.rdy /\ st.ch = 1 /\ LimReady(st) /\ st.ctlRun = 0 /\ st.ctlBuf # << >> THEN Quiesce([st EXCEPT !.rdy = FALSE])
   ELSE IF st.rdy
     THEN IF ~LimReady(st) THEN st
@@ -334,15 +355,22 @@ RL(p) ==
     [] p.kind = "pubrel" -> 2
     [] p.kind = "sub" -> IF Ver = 5 THEN 7 ELSE 6
     [] p.kind = "unsub" -> IF Ver = 5 THEN 6 ELSE 5
+    [] p.kind \in {"puback", "pubrec", "pubcomp", "suback", "unsuback"} -> 2
     [] OTHER -> 0
 
 InName(kind) == CASE kind = "pub" -> "PUBLISH" [] kind = "pubrel" -> "PUBREL"
-                  [] kind = "sub" -> "SUBSCRIBE" [] kind = "unsub" -> "UNSUBSCRIBE" [] OTHER -> "PINGREQ"
+                  [] kind = "sub" -> "SUBSCRIBE" [] kind = "unsub" -> "UNSUBSCRIBE" [] kind = "ping" -> "PINGREQ"
+                  [] kind = "connect" -> "CONNECT" [] kind = "connack" -> "CONNACK" [] kind = "pingresp" -> "PINGRESP"
+                  [] kind = "puback" -> "PUBACK" [] kind = "pubrec" -> "PUBREC" [] kind = "pubcomp" -> "PUBCOMP"
+                  [] kind = "suback" -> "SUBACK" [] kind = "unsuback" -> "UNSUBACK" [] kind = "auth" -> "AUTH"
+                  [] OTHER -> "DISCONNECT"
 InEvs(p) ==
   IF p.kind = "pub"
     THEN << E("in", "PUBLISH", p.alias, IF p.q = 0 THEN 0 ELSE p.id, p.q, 0, p.plen, TopicStr(p.topic)),
             E("in_props", "", RL(p), 97, 0, 0, 0, "|||") >>
-    ELSE << E("in", InName(p.kind), 0, IF p.kind = "ping" THEN 0 ELSE p.id, 0, 0, 0, "") >>
+    \* (DISCONNECT: n = Session Expiry Interval carried by the packet, -1 = none; CONNECT: x = its Session Expiry)
+    ELSE << E("in", InName(p.kind), 0, IF p.kind \in {"pubrel", "sub", "unsub", "puback", "pubrec", "pubcomp", "suback", "unsuback"} THEN p.id ELSE 0,
+              0, 0, IF p.kind = "discsei" THEN 10 ELSE IF p.kind = "disc" THEN -1 ELSE 0, IF p.kind = "connect" THEN "0" ELSE "") >>
 
 \* command: (arm outcomes and) the peer writes one or several packets in ONE write
 RECURSIVE Arrive(_, _)
